@@ -12,4 +12,5 @@ var (
 	WithTimeoutCause  = vs.WithTimeoutCause
 	Cause             = vs.Cause
 	AfterFunc         = vs.CtxAfterFunc
+	WithoutCancel     = vs.WithoutCancel
 )
